@@ -232,6 +232,10 @@ static int acquire (const char *k, int want_ok, Obj *o) {
 	else if (!strcmp (k, "shm_same")) { PShm *s = p_shm_new (name, 9000, P_SHM_ACCESS_READWRITE, NULL), *t = p_shm_new (name, 9000, P_SHM_ACCESS_READONLY, NULL); o->a = s; o->b = t; ok = s && t; }
 	else if (!strcmp (k, "shm_smaller")) { PShm *s = p_shm_new (name, 9000, P_SHM_ACCESS_READWRITE, NULL), *t = p_shm_new (name, 100, P_SHM_ACCESS_READWRITE, NULL); o->a = s; o->b = t; ok = s && t; }
 	else if (!strcmp (k, "shmbuf")) { PShmBuffer *b = p_shm_buffer_new (name, want_ok ? 1000 : 0, &err), *c = NULL; char buf[8]; if (b) { c = p_shm_buffer_new (name, 1000, NULL); p_shm_buffer_write (b, (ppointer) "abc", 3, NULL); if (c) p_shm_buffer_read (c, buf, 8, NULL); } o->a = b; o->b = c; ok = b != NULL; }
+	else if (!strcmp (k, "shmbuf_small")) {     /* a buffer cannot live in a segment that is too small for its header: the call fails and keeps nothing */
+		PShm *sm = p_shm_new (name, 8, P_SHM_ACCESS_READWRITE, NULL); PShmBuffer *b = sm ? p_shm_buffer_new (name, uniq % 2 ? 100 : 0, &err) : NULL;
+		o->a = sm; o->b = b; ok = sm != NULL && (b == NULL || want_ok);
+	}
 	else if (!strcmp (k, "thread")) { PUThread *t = p_uthread_create ((PUThreadFunc) thr_fn, NULL, TRUE, NULL); if (t) p_uthread_join (t); o->a = t; ok = t != NULL; }
 	else if (!strcmp (k, "thread_named")) {     /* full creation call with a name: lengths around the system's 16-byte limit */
 		static const int lens[] = { 0, 1, 15, 16, 17, 40, 14, 16, 31, 16 }; char nm[64]; int L = lens[uniq % 10]; PUThread *t;
@@ -271,6 +275,7 @@ static void release (Obj *o) {
 	else if (!strcmp (k, "sem2")) { if (o->a) p_semaphore_free (o->a); if (o->b) p_semaphore_free (o->b); if (o->c) { p_semaphore_take_ownership (o->c); p_semaphore_free (o->c); } }
 	else if (!strcmp (k, "shm") || !strcmp (k, "shm_close_intr")) { p_shm_take_ownership (o->a); p_shm_free (o->a); }
 	else if (!strcmp (k, "shm_same") || !strcmp (k, "shm_smaller")) { if (o->b) p_shm_free (o->b); if (o->a) p_shm_free (o->a); }
+	else if (!strcmp (k, "shmbuf_small")) { if (o->b) p_shm_buffer_free (o->b); if (o->a) { p_shm_take_ownership (o->a); p_shm_free (o->a); } }
 	else if (!strcmp (k, "shmbuf")) { if (o->b) p_shm_buffer_free (o->b); if (o->a) { p_shm_buffer_take_ownership (o->a); p_shm_buffer_free (o->a); } }
 	else if (!strcmp (k, "thread") || !strcmp (k, "thread_named") || !strcmp (k, "thread_detached")) p_uthread_unref (o->a);
 	else if (!strcmp (k, "locks")) { p_mutex_free (o->a); p_cond_variable_free (o->b); p_rwlock_free (o->c); p_spinlock_free ((PSpinLock *) o->aux); }
